@@ -149,8 +149,14 @@ class Mailbox:
         np_rows = db.execute("SELECT * FROM `nameplates` WHERE `mailbox_id`=?",
                              (self._mailbox_id,)).fetchall()
         for np_row in np_rows:
+            np_side_rows = db.execute("SELECT * FROM `nameplate_sides`"
+                                      " WHERE `nameplates_id`=?",
+                                      (np_row["id"],)).fetchall()
             db.execute("DELETE FROM `nameplate_sides` WHERE `nameplates_id`=?",
                        (np_row["id"],))
+            if self._usage_db:
+                self._app._summarize_nameplate_and_store(np_side_rows, when,
+                                                         pruned=False)
         db.execute("DELETE FROM `nameplates` WHERE `mailbox_id`=?",
                    (self._mailbox_id,))
         # remove mailbox content
